@@ -186,17 +186,24 @@ def _scalar_member_sites(pkg):
     return out
 
 
-def _names_alias(pkg, t):
-    return isinstance(t, N) and t.ns is None and isinstance(pkg.find(t.name), Al)
+def _container_underneath(pkg, t, depth=0):
+    """True if t is (an alias chain ending in) a vector, array or map"""
+    if isinstance(t, (V, A, M)):
+        return True
+    if isinstance(t, N) and t.ns is None and depth < 20:
+        d = pkg.find(t.name)
+        if isinstance(d, Al) and not d.tparams:
+            return _container_underneath(pkg, d.type, depth + 1)
+    return False
 
 
 def e_make_optional(pkg, r):
-    c = _pick(r, [(di, mi, t) for di, mi, t in _scalar_member_sites(pkg) if isinstance(t, (P, N)) and not (isinstance(t, N) and t.args) and not _names_alias(pkg, t)])
+    c = _pick(r, [(di, mi, t) for di, mi, t in _scalar_member_sites(pkg) if isinstance(t, (P, N)) and not (isinstance(t, N) and t.args)])
     if not c:
         return None
     di, mi, t = c
     set_member_type(pkg, di, mi, Opt(t))
-    return dict(cls=PARTIAL, name="T->T?", where=(pkg.defs[di].name, mi))
+    return dict(cls=PARTIAL, name="T->T?", where=(pkg.defs[di].name, mi), container=_container_underneath(pkg, t))
 
 
 def e_make_required(pkg, r):
@@ -205,7 +212,7 @@ def e_make_required(pkg, r):
         return None
     di, mi, t = c
     set_member_type(pkg, di, mi, t.cases[0][1])
-    return dict(cls=PARTIAL, name="T?->T", where=(pkg.defs[di].name, mi))
+    return dict(cls=PARTIAL, name="T?->T", where=(pkg.defs[di].name, mi), container=_container_underneath(pkg, t.cases[0][1]))
 
 
 def _extra_case(t, r):
@@ -391,7 +398,7 @@ def e_introduce_alias(pkg, r):
     nm = "Intro%d" % r.randrange(10**6)
     set_member_type(pkg, di, mi, replace_at(member_type(pkg, di, mi), p, N(nm)))
     pkg.defs.append(Al(nm, s))
-    return dict(cls=COMPATIBLE, name="introduce-alias", where=(pkg.defs[di].name, mi, p))
+    return dict(cls=COMPATIBLE, name="introduce-alias", where=(pkg.defs[di].name, mi, p), container=bool(p) and isinstance(s, (V, A, M)))
 
 
 # --- breaking
